@@ -13,17 +13,47 @@ pub open spec fn ite_sem<T: DDNNFPtr>(i: Ite<T>, env: Env) -> bool {
     }
 }
 
+pub open spec fn ite_arg<T: DDNNFPtr>(a: T, f: T, g: T, h: T) -> bool {
+    a == f || a == g || a == h || a.is_true_s() || a.is_false_s()
+}
+/// a is one of the arguments, the negation of one, or a constant
+pub open spec fn ite_arg2<T: DDNNFPtr>(a: T, f: T, g: T, h: T) -> bool {
+    ite_arg(a, f, g, h) || a == f.neg_s() || a == g.neg_s() || a == h.neg_s()
+}
+/// every pointer in the standard triple is derived from the arguments
+#[verifier::opaque]
+pub open spec fn ite_parts_from<T: DDNNFPtr>(i: Ite<T>, f: T, g: T, h: T) -> bool {
+    match i {
+        Ite::IteChoice { f: a, g: b, h: c } | Ite::IteComplChoice { f: a, g: b, h: c } =>
+            ite_arg2(a, f, g, h) && ite_arg2(b, f, g, h) && ite_arg2(c, f, g, h),
+        Ite::IteConst(c) => ite_arg2(c, f, g, h),
+    }
+}
+
+/// argument a is a constant, or it (or its negation) survives in the standard triple
+#[verifier::opaque]
+pub open spec fn ite_covers<T: DDNNFPtr>(a: T, i: Ite<T>) -> bool {
+    a.is_true_s() || a.is_false_s() || match i {
+        Ite::IteChoice { f, g, h } | Ite::IteComplChoice { f, g, h } =>
+            a == f || a == g || a == h || a == f.neg_s() || a == g.neg_s() || a == h.neg_s(),
+        Ite::IteConst(_) => true,
+    }
+}
+
 impl<T: DDNNFPtr> Ite<T> {
 //%% extract src/builder/cache/ite.rs :: impl<'a, T: DDNNFPtr<'a>> Ite<T> :: fn new
 //%% @ret r
 //%% @spec
         requires
-            forall|a: T, b: T| order.requires((a, b)),
+            // `order` is only ever applied to the arguments themselves or to constants
+            forall|a: T, b: T| ite_arg(a, f, g, h) && ite_arg(b, f, g, h) ==> order.requires((a, b)),
         ensures
             forall|env: Env| #[trigger] tr(env) ==> ite_sem(r, env) == ite3(f.sem(env), g.sem(env), h.sem(env)),
             !(r is IteConst) ==> !(f.is_true_s() || f.is_false_s()),
+            ite_parts_from(r, f, g, h),
+            ite_covers(f, r) && ite_covers(g, r) && ite_covers(h, r),
 //%% @entry
-        proof { T::eq_is_sem(); }
+        proof { T::eq_is_sem(); reveal(ite_parts_from); reveal(ite_covers); }
 //%% end
 
 //%% extract src/builder/cache/ite.rs :: impl<'a, T: DDNNFPtr<'a>> Ite<T> :: fn is_compl_choice
